@@ -35,6 +35,7 @@ import (
 
 	"github.com/crewjam/saml"
 	"github.com/crewjam/saml/samlsp"
+	"github.com/golang-jwt/jwt/v4"
 	"golang.org/x/net/html"
 	"pgregory.net/rapid"
 
@@ -55,6 +56,24 @@ type Config struct {
 	LifetimeS      int    `json:"lifetime_s"`      // saml.MaxIssueDelay while the middleware is built and used = tracking lifetime
 	SignReq        bool   `json:"sign_request"`    // Options.SignRequest
 	BrowserExpires bool   `json:"browser_expires"` // the model browser drops cookies after Max-Age (else it keeps them: worst case)
+
+	// public configuration the property's clauses do not mention: varied, must not change any verdict
+	EntityID       string `json:"entity_id,omitempty"`       // Options.EntityID
+	SameSite       int    `json:"same_site,omitempty"`       // Options.CookieSameSite (http.SameSite value)
+	ForceAuthn     bool   `json:"force_authn,omitempty"`     // Options.ForceAuthn
+	LogoutRedirect bool   `json:"logout_redirect,omitempty"` // Options.LogoutBindings = [HTTP-Redirect]
+	Artifact       bool   `json:"artifact,omitempty"`        // Options.UseArtifactResponse (the IdP still answers by POST)
+	CtxClass       bool   `json:"ctx_class,omitempty"`       // Options.RequestedAuthnContext set
+
+	// public fields of the tracker / codecs; the model takes its expectations from THESE values
+	TrackPrefix  string `json:"track_prefix,omitempty"`   // CookieRequestTracker.NamePrefix: "" = "saml_", "-" = empty prefix, else the prefix
+	TrackLifeS   int    `json:"track_life_s,omitempty"`   // JWTTrackedRequestCodec.MaxAge (0 = LifetimeS): THE tracking lifetime
+	TrackCookieS int    `json:"track_cookie_s,omitempty"` // CookieRequestTracker.MaxAge (0 = tracking lifetime): browser-side only
+	TrackAlg     string `json:"track_alg,omitempty"`      // JWTTrackedRequestCodec.SigningMethod ("" = default for the key)
+	TrackAud     string `json:"track_aud,omitempty"`      // JWTTrackedRequestCodec.Audience ("" = root URL)
+	TrackIss     string `json:"track_iss,omitempty"`      // JWTTrackedRequestCodec.Issuer ("" = root URL)
+	SessLifeS    int    `json:"sess_life_s,omitempty"`    // JWTSessionCodec.MaxAge and CookieSessionProvider.MaxAge (0 = 3600)
+	SessDomain   string `json:"sess_domain,omitempty"`    // CookieSessionProvider.Domain override
 }
 
 // Action is one step of a history.  Flow / Resp / Other are resolved modulo the
@@ -91,7 +110,7 @@ type Case struct {
 
 var (
 	cookieModes = []string{"faithful", "none", "only-own", "only-other", "all-but-own", "tampered-own", "renamed-own", "swapped", "session-as-tracking", "own-plus-junk", "resurrect-own", "forged-own", "alg-none-own", "swap-alg-own", "alias"}
-	relayModes  = []string{"echo", "other", "absent", "arbitrary", "attacker", "prefixed", "subject"}
+	relayModes  = []string{"echo", "other", "absent", "arbitrary", "attacker", "prefixed", "subject", "own-url", "request-id", "session-cookie", "acs-url"}
 	getJars     = []string{"faithful", "no-session", "tracking-as-session", "tampered-session"}
 	users       = []string{"alice", "bob", "mallory"}
 	roots       = []string{"https://sp.example.com/", "http://sp.example.com/", "https://sp.example.com:8443/", "https://sp.example.com/app/", "http://localhost:8000/"}
@@ -112,12 +131,32 @@ func gen(t *rapid.T) Case {
 	c.Config.Key = rapid.SampledFrom([]string{"sp", "sp", "spec"}).Draw(t, "key")
 	c.Config.Root = rapid.SampledFrom(roots).Draw(t, "root")
 	c.Config.Binding = rapid.SampledFrom([]string{"redirect", "post"}).Draw(t, "binding")
-	c.Config.RelayMode = rapid.SampledFrom([]string{"", "", "counter", "byurl", "empty"}).Draw(t, "relaymode")
-	c.Config.DefaultURI = rapid.SampledFrom([]string{"", "", "/home", "/app/start?x=1"}).Draw(t, "defaulturi")
+	c.Config.RelayMode = rapid.SampledFrom([]string{"", "", "counter", "byurl", "empty", "special", "special"}).Draw(t, "relaymode")
+	c.Config.DefaultURI = rapid.SampledFrom([]string{"", "", "/home", "/app/start?x=1", "home", "ABS", "https://portal.example.net/start"}).Draw(t, "defaulturi")
 	c.Config.CookieName = rapid.SampledFrom([]string{"", "", "sess", "saml_session"}).Draw(t, "cookiename")
 	c.Config.LifetimeS = rapid.SampledFrom([]int{90, 90, 30, 600}).Draw(t, "lifetime")
 	c.Config.SignReq = rapid.IntRange(0, 3).Draw(t, "signreq") == 0
 	c.Config.BrowserExpires = rapid.IntRange(0, 2).Draw(t, "browserexpires") == 0
+	if rapid.Bool().Draw(t, "vary-unmentioned") {
+		c.Config.EntityID = rapid.SampledFrom([]string{"", "urn:example:sp", "https://sp.example.com/entity"}).Draw(t, "entityid")
+		c.Config.SameSite = rapid.IntRange(0, 4).Draw(t, "samesite")
+		c.Config.ForceAuthn = rapid.Bool().Draw(t, "forceauthn")
+		c.Config.LogoutRedirect = rapid.Bool().Draw(t, "logoutredirect")
+		c.Config.Artifact = rapid.Bool().Draw(t, "artifact")
+		c.Config.CtxClass = rapid.Bool().Draw(t, "ctxclass")
+		c.Config.SessDomain = rapid.SampledFrom([]string{"", "", "example.com"}).Draw(t, "sessdomain")
+	}
+	if rapid.Bool().Draw(t, "vary-codecs") {
+		c.Config.TrackPrefix = rapid.SampledFrom([]string{"", "trk-", "-", "saml_x_"}).Draw(t, "trackprefix")
+		c.Config.TrackLifeS = rapid.SampledFrom([]int{0, 0, 20, 45, 300}).Draw(t, "tracklife")
+		c.Config.TrackCookieS = rapid.SampledFrom([]int{0, 0, 15, 1000}).Draw(t, "trackcookie")
+		if c.Config.Key == "sp" {
+			c.Config.TrackAlg = rapid.SampledFrom([]string{"", "RS512", "PS256", "RS384"}).Draw(t, "trackalg")
+		}
+		c.Config.TrackAud = rapid.SampledFrom([]string{"", "", "urn:track:aud"}).Draw(t, "trackaud")
+		c.Config.TrackIss = rapid.SampledFrom([]string{"", "", "urn:track:iss"}).Draw(t, "trackiss")
+		c.Config.SessLifeS = rapid.SampledFrom([]int{0, 0, 120, 7200}).Draw(t, "sesslife")
+	}
 
 	urls := pageURLs
 	if excludeSlashSlash() {
@@ -132,6 +171,13 @@ func gen(t *rapid.T) Case {
 	nflows, nresps, sess := 0, 0, false
 	unanswered, undelivered := 0, 0
 	L := c.Config.LifetimeS
+	if c.Config.TrackLifeS > 0 {
+		L = c.Config.TrackLifeS
+	}
+	S := 3600
+	if c.Config.SessLifeS > 0 {
+		S = c.Config.SessLifeS
+	}
 	for i := 0; i < n; i++ {
 		var ops []string
 		add := func(op string, weight int) {
@@ -221,7 +267,7 @@ func gen(t *rapid.T) Case {
 			case 3, 4:
 				a.Seconds = L + rapid.IntRange(2, 100).Draw(t, "above")
 			default:
-				a.Seconds = 3600 + rapid.IntRange(2, 100).Draw(t, "far")
+				a.Seconds = S + rapid.IntRange(2, 100).Draw(t, "far")
 			}
 		}
 		c.Actions = append(c.Actions, a)
@@ -251,6 +297,7 @@ type flow struct {
 }
 
 type response struct {
+	issuedAt     time.Time
 	flow         int
 	user         string
 	unsolicited  bool
@@ -280,7 +327,11 @@ type world struct {
 	acsPath  string
 	sessName string
 	defURI   string
-	life     int
+	life     int    // tracking lifetime = configured JWTTrackedRequestCodec.MaxAge
+	issueDly int    // saml.MaxIssueDelay: freshness window of requests and responses
+	sessLife int    // configured session lifetime
+	prefix   string // configured tracking-cookie name prefix
+	entity   string // the SP's entity ID as configured
 	now      time.Time
 	counter  int
 	idpUser  string
@@ -325,7 +376,24 @@ func newWorld(cfg Config) (*world, error) {
 	}
 	w.root = root
 	w.https = root.Scheme == "https"
-	w.life = cfg.LifetimeS
+	w.life, w.issueDly, w.sessLife, w.prefix = cfg.LifetimeS, cfg.LifetimeS, 3600, "saml_"
+	if cfg.TrackLifeS > 0 {
+		w.life = cfg.TrackLifeS
+	}
+	if cfg.SessLifeS > 0 {
+		w.sessLife = cfg.SessLifeS
+	}
+	switch cfg.TrackPrefix {
+	case "":
+	case "-":
+		w.prefix = ""
+	default:
+		w.prefix = cfg.TrackPrefix
+	}
+	w.entity = cfg.EntityID
+	if w.entity == "" {
+		w.entity = root.String() + "saml/metadata"
+	}
 	saml.MaxIssueDelay = time.Duration(cfg.LifetimeS) * time.Second
 	w.setNow(fix.Epoch.Add(1234 * time.Second))
 
@@ -341,8 +409,20 @@ func newWorld(cfg Config) (*world, error) {
 
 	mk := func(key *fix.KeyPair) (*samlsp.Middleware, error) {
 		opts := samlsp.Options{URL: *root, Key: key.Key, Certificate: key.Cert, IDPMetadata: &idpMeta,
-			CookieName: cfg.CookieName, DefaultRedirectURI: cfg.DefaultURI, SignRequest: cfg.SignReq}
+			CookieName: cfg.CookieName, DefaultRedirectURI: cfg.DefaultURI, SignRequest: cfg.SignReq,
+			EntityID: cfg.EntityID, CookieSameSite: http.SameSite(cfg.SameSite), ForceAuthn: cfg.ForceAuthn, UseArtifactResponse: cfg.Artifact}
+		if cfg.DefaultURI == "ABS" {
+			opts.DefaultRedirectURI = root.String() + "landing?x=1"
+		}
+		if cfg.LogoutRedirect {
+			opts.LogoutBindings = []string{saml.HTTPRedirectBinding}
+		}
+		if cfg.CtxClass {
+			opts.RequestedAuthnContext = &saml.RequestedAuthnContext{Comparison: "exact", AuthnContextClassRef: "urn:oasis:names:tc:SAML:2.0:ac:classes:PasswordProtectedTransport"}
+		}
 		switch cfg.RelayMode {
+		case "special":
+			opts.RelayStateFunc = func(http.ResponseWriter, *http.Request) string { w.counter++; return specialRelay(w.counter) }
 		case "counter":
 			opts.RelayStateFunc = func(http.ResponseWriter, *http.Request) string { w.counter++; return fmt.Sprintf("rs-%d", w.counter) }
 		case "byurl":
@@ -362,6 +442,42 @@ func newWorld(cfg Config) (*world, error) {
 		} else {
 			m.Binding = saml.HTTPRedirectBinding
 		}
+		// public fields of the tracker, the session provider and their codecs
+		tr, ok1 := m.RequestTracker.(samlsp.CookieRequestTracker)
+		tc, ok2 := tr.Codec.(samlsp.JWTTrackedRequestCodec)
+		sp, ok3 := m.Session.(samlsp.CookieSessionProvider)
+		sc, ok4 := sp.Codec.(samlsp.JWTSessionCodec)
+		if !ok1 || !ok2 || !ok3 || !ok4 {
+			return nil, fmt.Errorf("unexpected default provider types")
+		}
+		tr.NamePrefix = w.prefix
+		if cfg.TrackLifeS > 0 {
+			tc.MaxAge = time.Duration(cfg.TrackLifeS) * time.Second
+			tr.MaxAge = tc.MaxAge
+		}
+		if cfg.TrackCookieS > 0 {
+			tr.MaxAge = time.Duration(cfg.TrackCookieS) * time.Second
+		}
+		if cfg.TrackAlg != "" {
+			tc.SigningMethod = jwt.GetSigningMethod(cfg.TrackAlg)
+		}
+		if cfg.TrackAud != "" {
+			tc.Audience = cfg.TrackAud
+		}
+		if cfg.TrackIss != "" {
+			tc.Issuer = cfg.TrackIss
+		}
+		tr.Codec = tc
+		m.RequestTracker = tr
+		if cfg.SessLifeS > 0 {
+			sc.MaxAge = time.Duration(cfg.SessLifeS) * time.Second
+			sp.MaxAge = sc.MaxAge
+		}
+		if cfg.SessDomain != "" && strings.HasSuffix(root.Hostname(), "."+cfg.SessDomain) {
+			sp.Domain = cfg.SessDomain
+		}
+		sp.Codec = sc
+		m.Session = sp
 		return m, nil
 	}
 	key := fix.Get(cfg.Key)
@@ -381,8 +497,11 @@ func newWorld(cfg Config) (*world, error) {
 		w.sessName = "token"
 	}
 	w.defURI = cfg.DefaultURI
-	if w.defURI == "" {
+	switch w.defURI {
+	case "":
 		w.defURI = "/"
+	case "ABS":
+		w.defURI = root.String() + "landing?x=1"
 	}
 
 	// the IdP knows the SP by its metadata as published (re-parsed from XML).  An EC
@@ -422,6 +541,24 @@ func newWorld(cfg Config) (*world, error) {
 		protected.ServeHTTP(rw, r)
 	})
 	return w, nil
+}
+
+// specialRelay is a RelayStateFunc value made of characters that are valid in a
+// cookie name but must be escaped in a URL query ("+", "&", "#", "%41").
+func specialRelay(n int) string { return fmt.Sprintf("flow+%d&b#c%%41!~", n) }
+
+// requestID reads the SAML request id out of a flow's tracking token (public data).
+func requestID(f *flow) string {
+	if p := strings.Split(f.tok, "."); len(p) == 3 {
+		if raw, err := base64.RawURLEncoding.DecodeString(p[1]); err == nil {
+			var m map[string]any
+			if json.Unmarshal(raw, &m) == nil {
+				id, _ := m["id"].(string)
+				return id
+			}
+		}
+	}
+	return ""
 }
 
 func reparse(in *saml.EntityDescriptor, out *saml.EntityDescriptor) error {
@@ -594,7 +731,10 @@ func algNone(tok string) string {
 
 // swapAlg re-signs the claims of tok with the same private key under RS384 (RSA) or
 // ES384 (ECDSA; raw r||s of 48 bytes each, which the library's verifier accepts for any curve).
-func swapAlg(tok string, kp *fix.KeyPair) (string, error) {
+//
+// A deployment that CONFIGURES another RSA algorithm gets the library default RS256
+// instead: the token a default deployment with the same key would have issued.
+func swapAlg(tok string, kp *fix.KeyPair, configured string) (string, error) {
 	p := strings.Split(tok, ".")
 	if len(p) != 3 {
 		return "", fmt.Errorf("not a three-segment token")
@@ -602,13 +742,21 @@ func swapAlg(tok string, kp *fix.KeyPair) (string, error) {
 	alg := "RS384"
 	if kp.EC() != nil {
 		alg = "ES384"
+	} else if configured != "" && configured != "RS256" {
+		alg = "RS256"
 	}
 	hdr := base64.RawURLEncoding.EncodeToString([]byte(`{"alg":"` + alg + `","typ":"JWT"}`))
 	digest := sha512.Sum384([]byte(hdr + "." + p[1]))
 	var sig []byte
 	if k := kp.RSA(); k != nil {
 		var err error
-		if sig, err = rsa.SignPKCS1v15(rand.Reader, k, crypto.SHA384, digest[:]); err != nil {
+		if alg == "RS256" {
+			d256 := sha256.Sum256([]byte(hdr + "." + p[1]))
+			sig, err = rsa.SignPKCS1v15(rand.Reader, k, crypto.SHA256, d256[:])
+		} else {
+			sig, err = rsa.SignPKCS1v15(rand.Reader, k, crypto.SHA384, digest[:])
+		}
+		if err != nil {
 			return "", err
 		}
 	} else {
@@ -626,7 +774,7 @@ func swapAlg(tok string, kp *fix.KeyPair) (string, error) {
 // authentic reports which flow a (name, value) pair is the authentic tracking cookie of.
 func (w *world) authentic(name, value string) (int, bool) {
 	for i, f := range w.flows {
-		if f.tok == value && name == "saml_"+f.idx {
+		if f.tok == value && name == w.prefix+f.idx {
 			return i, true
 		}
 	}
@@ -653,8 +801,11 @@ func (w *world) resolve(loc string) string {
 		return w.root.Scheme + ":" + loc
 	case strings.HasPrefix(loc, "/"):
 		return origin + loc
+	case strings.Contains(loc, "://"):
+		return loc
 	}
-	return loc
+	// relative reference: resolved against the ACS URL, where the browser received it
+	return origin + w.acsPath[:strings.LastIndex(w.acsPath, "/")+1] + loc
 }
 
 // collapseLeadingSlashes: a requested path "//x/y" and the path "/x/y" name the
@@ -760,20 +911,30 @@ func (w *world) expectStart(rec *httptest.ResponseRecorder, target string, why s
 	if f.idx == "" {
 		return fmt.Sprintf("GET %s: flow start carries no RelayState", target)
 	}
+	// the index is what the CONFIGURED RelayStateFunc returned, not what the reply happens to carry
+	want := ""
 	switch w.cfg.RelayMode {
 	case "counter":
-		if want := fmt.Sprintf("rs-%d", w.counter); f.idx != want {
-			return fmt.Sprintf("GET %s: RelayState %q is not the RelayStateFunc's value %q", target, f.idx, want)
-		}
+		want = fmt.Sprintf("rs-%d", w.counter)
+	case "special":
+		want = specialRelay(w.counter)
+		w.classes["relay:needs-url-escaping"] = true
 	case "byurl":
 		h := sha256.Sum256([]byte(target))
-		if want := "u" + hex.EncodeToString(h[:6]); f.idx != want {
-			return fmt.Sprintf("GET %s: RelayState %q is not the RelayStateFunc's value %q", target, f.idx, want)
+		want = "u" + hex.EncodeToString(h[:6])
+	}
+	if want != "" {
+		if f.idx != want {
+			return fmt.Sprintf("GET %s: the %s-binding reply carries RelayState %q, the RelayStateFunc returned %q", target, w.cfg.Binding, f.idx, want)
+		}
+		f.idx = want
+		if f.form != nil {
+			f.form.Set("RelayState", want)
 		}
 	}
 	found := false
 	for _, ck := range cks {
-		if ck.Name == "saml_"+f.idx && ck.Value != "" {
+		if ck.Name == w.prefix+f.idx && ck.Value != "" {
 			f.tok = ck.Value
 			found = true
 			if !pathMatch(ck.Path, w.acsPath) {
@@ -782,7 +943,7 @@ func (w *world) expectStart(rec *httptest.ResponseRecorder, target string, why s
 		}
 	}
 	if !found {
-		return fmt.Sprintf("GET %s: flow start sets no tracking cookie saml_%s (Set-Cookie: %q)", target, f.idx, rec.Header().Values("Set-Cookie"))
+		return fmt.Sprintf("GET %s: flow start sets no tracking cookie %s%s (Set-Cookie: %q)", target, w.prefix, f.idx, rec.Header().Values("Set-Cookie"))
 	}
 	for _, g := range w.flows {
 		if g.tok == f.tok {
@@ -847,9 +1008,9 @@ func (w *world) get(a Action) string {
 		if si, ok := w.sessions[v]; ok {
 			age := int(w.now.Sub(si.at) / time.Second)
 			switch {
-			case age < 3600-1:
+			case age < w.sessLife-1:
 				authed, expectUser = true, si.user
-			case age <= 3600+1:
+			case age <= w.sessLife+1:
 				rec, _ := w.do("GET", a.URL, nil, cookies)
 				w.absorb(rec)
 				return stop
@@ -885,7 +1046,7 @@ func (w *world) answer(a Action) string {
 		w.idpUser = "alice"
 	}
 	rec := httptest.NewRecorder()
-	r := &response{flow: k, user: w.idpUser, unsolicited: a.Unsolicited}
+	r := &response{flow: k, user: w.idpUser, unsolicited: a.Unsolicited, issuedAt: w.now}
 	if a.Unsolicited {
 		relay := ""
 		switch a.UnsolRelay {
@@ -895,7 +1056,7 @@ func (w *world) answer(a Action) string {
 			relay = attackerURL
 		}
 		req := httptest.NewRequest("GET", "https://idp.example.org/launch", nil)
-		w.idp.ServeIDPInitiated(rec, req, w.m.ServiceProvider.MetadataURL.String(), relay)
+		w.idp.ServeIDPInitiated(rec, req, w.entity, relay)
 		w.classes["answer:unsolicited"] = true
 	} else {
 		var req *http.Request
@@ -948,7 +1109,7 @@ func (w *world) deliver(a Action) string {
 	r := w.resps[a.Resp%len(w.resps)]
 	k := r.flow
 	f := w.flows[k]
-	own := "saml_" + f.idx
+	own := w.prefix + f.idx
 	j, hasOther := w.otherFlow(k, a.Other)
 	var g *flow
 	if hasOther {
@@ -965,21 +1126,21 @@ func (w *world) deliver(a Action) string {
 		jar = []kv{{own, f.tok}}
 	case "only-other":
 		if g != nil {
-			jar = []kv{{"saml_" + g.idx, g.tok}}
+			jar = []kv{{w.prefix + g.idx, g.tok}}
 		}
 	case "all-but-own":
 		jar = dropKV(base, own)
 	case "tampered-own":
 		jar = setKV(base, own, tamper(f.tok))
 	case "renamed-own":
-		name := "saml_zzz"
+		name := w.prefix + "zzz"
 		if g != nil && g.idx != f.idx {
-			name = "saml_" + g.idx
+			name = w.prefix + g.idx
 		}
 		jar = setKV(dropKV(base, own), name, f.tok)
 	case "swapped":
 		if g != nil && g.idx != f.idx {
-			jar = setKV(setKV(base, own, g.tok), "saml_"+g.idx, f.tok)
+			jar = setKV(setKV(base, own, g.tok), w.prefix+g.idx, f.tok)
 		} else {
 			jar = dropKV(base, own)
 		}
@@ -987,7 +1148,7 @@ func (w *world) deliver(a Action) string {
 		// a valid session token of this SP under the tracking-cookie name saml_<its subject>
 		tok, user := "", ""
 		for v, si := range w.sessions {
-			if int(w.now.Sub(si.at)/time.Second) < 3600-1 && (tok == "" || v < tok) {
+			if int(w.now.Sub(si.at)/time.Second) < w.sessLife-1 && (tok == "" || v < tok) {
 				tok, user = v, si.user
 			}
 		}
@@ -999,9 +1160,9 @@ func (w *world) deliver(a Action) string {
 			}
 			tok = t
 		}
-		jar = setKV(dropKV(base, own), "saml_"+user, tok)
+		jar = setKV(dropKV(base, own), w.prefix+user, tok)
 	case "own-plus-junk":
-		jar = setKV(setKV(setKV(base, own, f.tok), "saml_junk", "AAAA.BBBB.CCCC"), "other", "x")
+		jar = setKV(setKV(setKV(base, own, f.tok), w.prefix+"junk", "AAAA.BBBB.CCCC"), "other", "x")
 	case "resurrect-own":
 		jar = setKV(base, own, f.tok)
 	case "forged-own":
@@ -1016,7 +1177,7 @@ func (w *world) deliver(a Action) string {
 	case "swap-alg-own":
 		// the flow's own claims under another algorithm of the same family, signed with the SP's key:
 		// not the cookie the middleware issued
-		t, err := swapAlg(f.tok, fix.Get(w.cfg.Key))
+		t, err := swapAlg(f.tok, fix.Get(w.cfg.Key), w.cfg.TrackAlg)
 		if err != nil {
 			return "HARNESS: cannot re-sign: " + err.Error()
 		}
@@ -1027,7 +1188,7 @@ func (w *world) deliver(a Action) string {
 		if g != nil {
 			src = g
 		}
-		jar = setKV(base, "saml_zzz", src.tok)
+		jar = setKV(base, w.prefix+"zzz", src.tok)
 	default:
 		mode = "faithful"
 		jar = base
@@ -1053,6 +1214,15 @@ func (w *world) deliver(a Action) string {
 		rs = own
 	case "subject":
 		rs = r.user // names the cookie saml_<subject> of the session-as-tracking jar
+	// other identifiers of the SAME deployment / flow: none of them is the index
+	case "own-url":
+		rs = f.target
+	case "request-id":
+		rs = requestID(f)
+	case "session-cookie":
+		rs = strings.TrimPrefix(w.sessName, w.prefix) // names the session cookie when it shares the prefix
+	case "acs-url":
+		rs = w.m.ServiceProvider.AcsURL.String()
 	default:
 		rmode = "echo"
 		rs = r.relay
@@ -1086,16 +1256,20 @@ func (w *world) deliver(a Action) string {
 		verdict, why = "refuse", "the tracking cookie of the flow is past its lifetime"
 	case w.ageClass(f) == "boundary":
 		verdict = "open"
+	case int(w.now.Sub(r.issuedAt)/time.Second) >= w.issueDly-1:
+		// the response itself is older than MaxIssueDelay (possible when the configured
+		// tracking lifetime is longer): C02's matter, this property is silent
+		verdict = "open"
 	case rs == "":
-		wantLoc = w.absolute(w.defURI)
+		wantLoc = w.resolve(w.defURI)
 		why = "no RelayState: configured default"
 	default:
-		v, ok := getKV(jar, "saml_"+rs)
+		v, ok := getKV(jar, w.prefix+rs)
 		if !ok {
 			verdict, why = "refuse", "RelayState' names no cookie in jar'"
 			break
 		}
-		i, ok := w.authentic("saml_"+rs, v)
+		i, ok := w.authentic(w.prefix+rs, v)
 		switch {
 		case !ok:
 			verdict, why = "refuse", "the cookie named by RelayState' is not an authentic tracking cookie"
@@ -1105,7 +1279,7 @@ func (w *world) deliver(a Action) string {
 			verdict = "open"
 		default:
 			wantLoc = w.absolute(w.flows[i].target)
-			clearName = "saml_" + rs
+			clearName = w.prefix + rs
 			why = fmt.Sprintf("RelayState' names the authentic tracking cookie of flow %d", i)
 			if i != k {
 				w.classes["deliver:lands-on-other-flows-url"] = true
@@ -1133,7 +1307,7 @@ func (w *world) deliver(a Action) string {
 		if ck.Name == w.sessName && ck.Value != "" {
 			sessCk = ck
 		}
-		if strings.HasPrefix(ck.Name, "saml_") && ck.Value == "" && (ck.MaxAge < 0 || (!ck.Expires.IsZero() && !ck.Expires.After(w.now))) {
+		if ck.Name != w.sessName && strings.HasPrefix(ck.Name, w.prefix) && ck.Value == "" && (ck.MaxAge < 0 || (!ck.Expires.IsZero() && !ck.Expires.After(w.now))) {
 			cleared[ck.Name] = true
 		}
 	}
@@ -1162,7 +1336,11 @@ func (w *world) deliver(a Action) string {
 	if rec.Code != http.StatusFound || sessCk == nil {
 		return fmt.Sprintf("%s: expected 302 with a session cookie (%s), got status %d, session cookie set: %v", desc, why, rec.Code, sessCk != nil)
 	}
-	if got := w.resolve(loc); got != wantLoc && got != collapseLeadingSlashes(w, wantLoc) {
+	altLoc := wantLoc
+	if rs == "" && !strings.HasPrefix(w.defURI, "/") && !strings.Contains(w.defURI, "://") {
+		altLoc = w.root.String() + w.defURI // a relative default may as well be meant relative to the root URL
+	}
+	if got := w.resolve(loc); got != wantLoc && got != altLoc && got != collapseLeadingSlashes(w, wantLoc) {
 		return fmt.Sprintf("%s: the browser is sent to %q (Location %q), expected %q (%s)", desc, got, loc, wantLoc, why)
 	}
 	if !sessCk.HttpOnly {
@@ -1229,7 +1407,7 @@ func (w *world) advance(a Action) string {
 	w.setNow(w.now.Add(time.Duration(s) * time.Second))
 	w.advSeen = true
 	switch {
-	case s > 3600:
+	case s > w.sessLife:
 		w.classes["advance:past-session-lifetime"] = true
 	case s > w.life:
 		w.classes["advance:above-tracking-lifetime"] = true
@@ -1256,9 +1434,26 @@ func validConfig(c Config) bool {
 		return false
 	}
 	switch c.RelayMode {
-	case "", "counter", "byurl", "empty":
+	case "", "counter", "byurl", "empty", "special":
 	default:
 		return false
+	}
+	switch c.TrackAlg {
+	case "":
+	case "RS256", "RS384", "RS512", "PS256", "PS384", "PS512":
+		if c.Key != "sp" {
+			return false
+		}
+	default:
+		return false
+	}
+	if (c.TrackLifeS != 0 && (c.TrackLifeS < 10 || c.TrackLifeS > 3000)) || (c.SessLifeS != 0 && c.SessLifeS < 60) || c.TrackCookieS < 0 || c.SameSite < 0 || c.SameSite > 4 {
+		return false
+	}
+	for _, r := range c.TrackPrefix {
+		if !(r == '-' || r == '_' || (r >= 'a' && r <= 'z') || (r >= '0' && r <= '9')) {
+			return false
+		}
 	}
 	return true
 }
@@ -1286,6 +1481,30 @@ func check(c Case) (res pbt.Result) {
 	}
 	if c.Config.BrowserExpires {
 		w.classes["browser:expires-cookies"] = true
+	}
+	if c.Config.EntityID != "" {
+		w.classes["cfg:entity-id"] = true
+	}
+	if c.Config.TrackPrefix != "" {
+		w.classes["cfg:track-prefix="+c.Config.TrackPrefix] = true
+	}
+	if c.Config.TrackAlg != "" {
+		w.classes["cfg:track-alg"] = true
+	}
+	if c.Config.TrackLifeS != 0 && c.Config.TrackLifeS != c.Config.LifetimeS {
+		w.classes["cfg:track-lifetime!=issue-delay"] = true
+	}
+	if c.Config.TrackAud != "" || c.Config.TrackIss != "" {
+		w.classes["cfg:track-aud-iss"] = true
+	}
+	if c.Config.SessLifeS != 0 {
+		w.classes["cfg:session-lifetime"] = true
+	}
+	if c.Config.SameSite != 0 || c.Config.ForceAuthn || c.Config.LogoutRedirect || c.Config.Artifact || c.Config.CtxClass || c.Config.SessDomain != "" {
+		w.classes["cfg:unmentioned-options-varied"] = true
+	}
+	if d := c.Config.DefaultURI; d != "" && !strings.HasPrefix(d, "/") {
+		w.classes["cfg:default-uri-relative-or-absolute"] = true
 	}
 	for i, a := range c.Actions {
 		var msg string
@@ -1341,6 +1560,8 @@ func enumDFS(tier string, emit func(Case)) {
 	cfgA := Config{Key: "sp", Root: "https://sp.example.com/", Binding: "redirect", LifetimeS: 90}
 	cfgB := Config{Key: "spec", Root: "http://sp.example.com/", Binding: "post", RelayMode: "counter", LifetimeS: 90, DefaultURI: "/home"}
 	cfgC := Config{Key: "sp", Root: "https://sp.example.com:8443/app/", Binding: "post", RelayMode: "byurl", LifetimeS: 30, CookieName: "saml_session", SignReq: true, BrowserExpires: true}
+	cfgD := Config{Key: "sp", Root: "https://sp.example.com/", Binding: "redirect", RelayMode: "special", LifetimeS: 90, TrackLifeS: 45, TrackPrefix: "trk-", TrackAlg: "RS512", TrackAud: "urn:track:aud",
+		EntityID: "urn:example:sp", DefaultURI: "home", SameSite: 2, ForceAuthn: true, Artifact: true, SessLifeS: 120}
 	redCM := []string{"faithful", "none", "only-own", "only-other", "tampered-own", "renamed-own", "session-as-tracking", "alias", "swap-alg-own"}
 	redRM := []string{"echo", "other", "absent", "attacker", "arbitrary"}
 	minCM := []string{"faithful", "none", "only-own", "only-other", "tampered-own", "renamed-own", "session-as-tracking"}
@@ -1350,9 +1571,11 @@ func enumDFS(tier string, emit func(Case)) {
 		depth  int
 		cm, rm []string
 	}
-	jobs := []job{{cfgA, 4, redCM, redRM}, {cfgB, 3, redCM, redRM}}
+	cfgE := cfgD
+	cfgE.Binding = "post"
+	jobs := []job{{cfgA, 4, redCM, redRM}, {cfgB, 3, redCM, redRM}, {cfgD, 3, redCM, relayModes}, {cfgE, 3, minCM, minRM}}
 	if tier == "thorough" {
-		jobs = []job{{cfgA, 4, cookieModes, relayModes}, {cfgB, 4, cookieModes, relayModes}, {cfgC, 4, cookieModes, relayModes}, {cfgA, 5, minCM, minRM}}
+		jobs = []job{{cfgA, 4, cookieModes, relayModes}, {cfgB, 4, minCM, relayModes}, {cfgC, 4, cookieModes, minRM}, {cfgD, 4, cookieModes, relayModes}, {cfgE, 3, cookieModes, relayModes}, {cfgA, 5, minCM, minRM}}
 	}
 	urls := []string{"/a", "/b?x=1"}
 	type st struct{ nflows, nresps int }
@@ -1407,7 +1630,9 @@ var prop = &pbt.Prop[Case]{
 		"instants within 1 s of the tracking lifetime or of the session lifetime end the judged part of a history",
 		"requested URLs are in normal form (no dot segments); a Location is resolved as a browser at the deployment's origin would; for a requested path with leading double slashes landing on the same path with them collapsed, at the deployment's origin, is accepted too",
 		"for ECDSA SP keys the IdP is given the SP metadata without the encryption key descriptor (an EC certificate cannot receive RSA-OAEP; see C07)",
-		"custom RelayStateFunc values are cookie-name and URL safe",
+		"custom RelayStateFunc values are valid cookie names (they may need URL escaping: \"flow+1&b#c%41!~\")",
+		"a relative DefaultRedirectURI (\"home\") may be resolved against the ACS URL (as the browser would) or against the root URL",
+		"every public Options / tracker / codec field a clause does not mention is varied and must not change a verdict; the tracking lifetime is the CONFIGURED JWTTrackedRequestCodec.MaxAge, the session lifetime the configured JWTSessionCodec.MaxAge; a response older than MaxIssueDelay presented with a still-fresh tracking cookie is not judged (C02)",
 		"when the user answers later than the tracking lifetime the IdP tool still accepts the old AuthnRequest (its own freshness limit is lifted for that call) and issues a fresh response",
 	},
 }
